@@ -79,6 +79,12 @@ chk("C14",
     "stateless explicit enumeration of all bounded inputs x {CRLF, CR, 5 paddings, +final newline} transformations; metamorphic equality oracle on the real parser and renderer",
     "DESIGN.md section 6, C14")
 
+chk("C15",
+    "All 256 bytes (and all 0x110000 code points for the Unicode predicates), every line up to the stated length over each recogniser's alphabet with every line-ending variant, every bounded string for NormalizeURI / IsEmailAddress / autolinks, and the parametric size families are run through the verif-tagged exports of the real recognisers and compared with regular definitions transcribed from the CommonMark 0.30 text; the same decisions are cross-checked through Parse on one-line documents.",
+    "Bounded scope (alphabets, lengths in the evidence). Reference recognisers are self-tested against hand-transcribed spec examples before every run. Unicode categories from Go's tables on both sides. Known finding atx-backslash-space identified by an exact structural predicate.",
+    "exhaustive enumeration of the recognisers' bounded input spaces (all bytes, all code points, all bounded lines) against reference regular definitions",
+    "DESIGN.md section 6, C15")
+
 # Reasons for properties not (yet) claimed.
 PENDING = {}
 
